@@ -490,8 +490,10 @@ int main(int argc, char** argv)
 #else
             W->bases[s].push_back(0);
 #endif
-            W->entries[s].clear();
+            // entry points handed out to earlier incarnations stay in the probe set: a guest may
+            // still hold them, and nothing of an earlier incarnation may be reachable through them
 #if !defined(BK_NATIVE)
+            W->entries[s].clear();
             for (unsigned i = 0; i < 2; i++) {
               W->entries[s].push_back({ Sbx::SlotBase + i, false });
               W->entries[s].push_back({ Sbx::SlotBase + i, true });
